@@ -216,6 +216,14 @@ def gen_datagram(rng, directed=False, kinds=None, small_header=None):
             body, tree = gen_flow_sample(rng, dv); ty = 1
         elif k == "counter":
             body, tree = gen_counter_sample(rng, dv); ty = 2
+        elif k in ("flow-opaque", "counter-opaque"):
+            # a sample of a standard type whose CONTENT this collector could not decode (a sampled ARP / LLDP / MPLS frame, a header
+            # protocol it does not know, records cut short ...): only for use under a filter that lists the type - a listed sample is
+            # skipped unread by its declared length, so what is in it can not matter
+            ty = 1 if k == "flow-opaque" else 2
+            body = rng.choice([bytes(rng.randrange(256) for _ in range(rng.choice([8, 36, 100]))),
+                               struct.pack(">IIIIIIII", 1, 2, 400, 7, 0, 3, 4, 1) + struct.pack(">IIIIII", 1, 16 + 28, 1, 64, 4, 28) + bytes(6) + bytes(6) + b"\x08\x06" + bytes(14)])
+            tree, k = None, ("flow" if ty == 1 else "counter")
         elif k == "unknown":
             body, tree = bytes(rng.randrange(256) for _ in range(rng.choice([0, 4, 8, 36, 100, 6]))), None
             ty = rng.choice([3, 4, 5, 7, 100, 4095])
